@@ -3,3 +3,9 @@ from .replay import register_driver
 
 register_driver('controller.Notifications.', 'notifications.py')
 register_driver('merkle.', 'merkle.py')
+for _f in ('scripthash_to_hashX', 'non_negative_integer', 'assert_boolean', 'assert_tx_hash', 'assert_raw_bytes'):
+    register_driver('session.' + _f + '.', 'pycall.py')
+for _f in ('protocol_tuple', 'protocol_version', 'version_string'):
+    register_driver('util.' + _f + '.', 'pycall.py')
+register_driver('session.ElectrumX.', 'session_handlers.py')
+register_driver('peers.PeerManager.on_add_peer.', 'peers_add_peer.py')
